@@ -108,6 +108,15 @@ def sigmaPoint (L : Layout) (K : Nat) : W Shape := do
 /-- size of `UTWeight::mean` / `covariance` for `dof` degrees of freedom -/
 def utWeightSize (dof : Nat) : Nat := 2 * dof + 1
 
+/-- `UTWeight::UTWeight(dof, …)` + `unscented_weights(n, …, weight_mean, weight_covariance, c)`:
+    both vectors are allocated with `2n + 1` entries and entry `j` is written for `j < 2n + 1` -/
+def unscentedWeights (n : Nat) : W Nat := do
+  let size := (2 * n) + 1
+  forRange ((2 * n) + 1) fun j => do
+    coeff "unscented_weights: weight_mean(j)" size j
+    coeff "unscented_weights: weight_covariance(j)" size j
+  pure size
+
 /-! ### unscented_transform (generic) -/
 
 /-- result of an unscented transform: validity, output layout + component count, cross covariance -/
@@ -377,28 +386,56 @@ def gaussLikelihood (site : String) (inn : Shape) (O : Layout) (K : Nat) : W (Bo
       let _ ← gaussianDensity c (vecS inn.r) py
     pure (true, inn.c)
 
-/-- `UKFCorrection::correctStep` followed by `getLikelihood()`; `additive` selects the constructor used. -/
-def ukfCorrect (additive : Bool) (I : Layout) (K : Nat) (C : Layout) (cK : Nat) (M : MMod) : W CorrRes := do
-  -- ut_weight_ is built in the constructor from the model's input description
+/-- the unscented transform UKFCorrection performs: `ut_weight_` was built in the constructor from the model's input
+    description; the generic variant first augments a copy of the belief with the measurement noise -/
+def ukfUT (additive : Bool) (I : Layout) (K : Nat) (M : MMod) : W UTRes := do
   let ws := utWeightSize (if additive then M.Lin.noiseless.dcov else M.Lin.dcov)
-  if !M.mvalid then pure (corrCopy I K)
+  if additive then utMeasAdditive I K ws M
   else do
-    let measSize := M.O.dim                    -- getMeasurementDescription().total_size()
-    let r ← (if additive then utMeasAdditive I K ws M
-             else do
-               -- pred_state_augmented = pred_state; pred_state_augmented.augmentWithNoise(noise covariance)
-               let (aug, _) ← gmAugment ⟨K, I, I.dim, I.dcov, I.meanS K, I.covS K, K⟩ ⟨M.rr, M.rr⟩
-               utMeasGeneric aug.L K ws M)
-    if !r.valid then pure (corrCopy I K)
-    else if !M.ivalid then pure (corrCopy I K)
+    -- pred_state_augmented = pred_state; pred_state_augmented.augmentWithNoise(noise covariance)
+    let (aug, _) ← gmAugment ⟨K, I, I.dim, I.dcov, I.meanS K, I.covS K, K⟩ ⟨M.rr, M.rr⟩
+    utMeasGeneric aug.L K ws M
+
+/-- the per-component updates of UKFCorrection::correctStep -/
+def ukfUpdates (I : Layout) (K : Nat) (C : Layout) (cK : Nat) (M : MMod) (r : UTRes) (inn : Shape) : W Unit :=
+  forRange K fun i => do
+    -- meas_size = getMeasurementDescription().total_size()
+    let pxyi ← middleCols "UKFCorrection: Pxy.middleCols(meas_size*i, meas_size)" r.cross (M.O.dim * i) M.O.dim
+    let pyi ← gmCov r.O r.K i
+    kalmanUpdate "UKFCorrection" I K C cK pxyi pyi inn i
+
+/-- members of a UKFCorrection object that survive a call: `innovations_`, `predicted_meas_` -/
+structure UKFMem where
+  inn : Shape
+  predO : Layout
+  predK : Nat
+
+/-- a freshly constructed object: empty innovations, default mixture -/
+def UKFMem.init : UKFMem := ⟨⟨0, 0⟩, ⟨1, 0, false, 0⟩, 1⟩
+
+/-- `UKFCorrection::correctStep` on an object with members `mem` (after fix 5117f2c the innovations of the previous
+    call are forgotten first); returns the members afterwards and the layout / component count of `corr_state`. -/
+def ukfStep (additive : Bool) (mem : UKFMem) (I : Layout) (K : Nat) (C : Layout) (cK : Nat) (M : MMod) : W (UKFMem × Layout × Nat) := do
+  let mem0 : UKFMem := { mem with inn := ⟨0, 0⟩ }          -- innovations_.resize(0, 0)
+  if !M.mvalid then pure (mem0, I, K)
+  else do
+    let r ← ukfUT additive I K M
+    let mem1 : UKFMem := { mem0 with predO := r.O, predK := r.K }   -- std::tie(valid, predicted_meas_, Pxy) = …
+    if !r.valid then pure (mem1, I, K)
+    else if !M.ivalid then pure (mem1, I, K)
     else do
-      let inn : Shape := ⟨M.irows, K⟩          -- innovation(y_p, measurement)
-      forRange K fun i => do
-        let pxyi ← middleCols "UKFCorrection: Pxy.middleCols(meas_size*i, meas_size)" r.cross (measSize * i) measSize
-        let pyi ← gmCov r.O r.K i
-        kalmanUpdate "UKFCorrection" I K C cK pxyi pyi inn i
-      let (lv, ls) ← gaussLikelihood "UKFCorrection" inn r.O r.K
-      pure ⟨C, cK, lv, ls⟩
+      let inn : Shape := ⟨M.irows, K⟩                        -- innovation(y_p, measurement)
+      ukfUpdates I K C cK M r inn
+      pure ({ mem1 with inn := inn }, C, cK)
+
+/-- `UKFCorrection::getLikelihood()` -/
+def ukfLik (mem : UKFMem) : W (Bool × Nat) := gaussLikelihood "UKFCorrection" mem.inn mem.predO mem.predK
+
+/-- `UKFCorrection::correctStep` on a fresh object followed by `getLikelihood()`; `additive` selects the constructor used. -/
+def ukfCorrect (additive : Bool) (I : Layout) (K : Nat) (C : Layout) (cK : Nat) (M : MMod) : W CorrRes := do
+  let (mem, L, k) ← ukfStep additive UKFMem.init I K C cK M
+  let (lv, ls) ← ukfLik mem
+  pure ⟨L, k, lv, ls⟩
 
 /-- `SUKFCorrection::getNoiseCovarianceMatrix(index)` -/
 def sukfNoiseCov (rr sub : Nat) (reduced : Bool) (index : Nat) : W Shape :=
@@ -474,15 +511,23 @@ def sukfLikelihood (inn prop : Shape) (rr sub : Nat) (reduced : Bool) : W (Bool 
       coeff "SUKFCorrection::getLikelihood: density.coeff(0)" v.r 0
     pure (true, inn.c)
 
-/-- `SUKFCorrection::correctStep` followed by `getLikelihood()` -/
-def sukfCorrect (I : Layout) (K : Nat) (C : Layout) (cK : Nat) (M : MMod) (sub : Nat) (reduced : Bool) : W CorrRes := do
+/-- members of a SUKFCorrection object that survive a call: `innovations_`, `propagated_sigma_points_` -/
+structure SUKFMem where
+  inn : Shape
+  prop : Shape
+
+def SUKFMem.init : SUKFMem := ⟨⟨0, 0⟩, ⟨0, 0⟩⟩
+
+/-- `SUKFCorrection::correctStep` on an object with members `mem` (members are overwritten only when the
+    corresponding stage succeeds); returns the members afterwards and the layout / component count of `corr_state` -/
+def sukfStep (mem : SUKFMem) (I : Layout) (K : Nat) (C : Layout) (cK : Nat) (M : MMod) (sub : Nat) (reduced : Bool) : W (SUKFMem × Layout × Nat) := do
   let ws := utWeightSize M.Lin.noiseless.dcov
   let measSize := M.O.dim
   req "SUKFCorrection: meas_size % measurement_sub_size_ (division by zero)" (.lt 0 sub)
-  if !(M.mvalid && measSize % sub == 0) then pure (corrCopy I K)
+  if !(M.mvalid && measSize % sub == 0) then pure (mem, I, K)
   else do
     let sig ← sigmaPoint I K
-    if !M.pvalid then pure (corrCopy I K)
+    if !M.pvalid then pure (mem, I, K)
     else do
       let prop : Shape := ⟨M.prows, sig.c + M.dcols⟩
       let ss := I.dim * 2 + 1                    -- size_sigmas = pred_state.dim * 2 + 1
@@ -493,7 +538,7 @@ def sukfCorrect (I : Layout) (K : Nat) (C : Layout) (cK : Nat) (M : MMod) (sub :
         let pmi ← col "SUKFCorrection: pred_mean.col(i)" predMean i
         let p ← prod "SUKFCorrection: prop_sp * ut_weight_.mean" psp wv
         assignFixed "SUKFCorrection: pred_mean.col(i).noalias() = ..." pmi p
-      if !M.ivalid then pure (corrCopy I K)
+      if !M.ivalid then pure ({ mem with prop := prop }, I, K)
       else do
         let inn : Shape := ⟨M.irows, K⟩
         let sw : Shape := ⟨ws, ws⟩               -- sqrt_ut_weight (diagonal, dense)
@@ -536,8 +581,13 @@ def sukfCorrect (I : Layout) (K : Nat) (C : Layout) (cK : Nat) (M : MMod) (sub :
           let g ← prod "SUKFCorrection: X * C_inv * X^T" e X.t
           let cc ← gmCov C cK i
           assignFixed "SUKFCorrection: corr_state.covariance(i) = ..." cc g
-        let (lv, ls) ← sukfLikelihood inn prop M.rr sub reduced
-        pure ⟨C, cK, lv, ls⟩
+        pure (⟨inn, prop⟩, C, cK)
+
+/-- `SUKFCorrection::correctStep` on a fresh object followed by `getLikelihood()` -/
+def sukfCorrect (I : Layout) (K : Nat) (C : Layout) (cK : Nat) (M : MMod) (sub : Nat) (reduced : Bool) : W CorrRes := do
+  let (mem, L, k) ← sukfStep SUKFMem.init I K C cK M sub reduced
+  let (lv, ls) ← sukfLikelihood mem.inn mem.prop M.rr sub reduced
+  pure ⟨L, k, lv, ls⟩
 
 /-- `KFCorrection::correctStep` followed by `getLikelihood()`; the model is an LTIMeasurementModel
     with `H : hm × hn`, `R : hm × hm` (its constructor enforces this), `measure()` of `ysize` rows. -/
